@@ -126,8 +126,8 @@ def net_step_task(mode, ic_given):
         ev = c.events
         loops = [e for e in ev if e["what"] == "loop"]
         c.oblige("post", "Network.step runs its three loops: all elements, then the origins, then the links",
-                 T.const([l["over"] for l in loops] == ["elements", "origins", "links"]), assume_after=False)
-        if [l["over"] for l in loops] != ["elements", "origins", "links"]:
+                 T.const([l["over"].split(".")[0] for l in loops] == ["elements", "origins", "links"]), assume_after=False)
+        if [l["over"].split(".")[0] for l in loops] != ["elements", "origins", "links"]:
             return
 
         def body_events(k):
